@@ -265,7 +265,23 @@ fn int_case(out: &mut Out, path: &Path, bl: Option<usize>, width: usize, xs: &[u
         for x in &xs[..split] {
             w.push(*x);
         }
-        w.extend(xs[split..].iter().cloned());
+        // iterators of different shapes: exact size_hint, lower bound 0, a wrong-looking lower bound, narrower item types
+        let rest: Vec<u64> = xs[split..].to_vec();
+        let shape = (xs.len() + 3 * split + width) % 6;
+        let fits = |bits: u32| rest.iter().all(|x| bits >= 64 || *x < (1u64 << bits));
+        match shape {
+            1 => w.extend(rest.iter().cloned().filter(|_| true)),
+            2 => {
+                let mut it = rest.iter().cloned();
+                w.extend(std::iter::from_fn(move || it.next()));
+            }
+            3 => w.extend(rest.chunks(3).flat_map(|c| c.iter().cloned())),
+            4 if fits(8) => w.extend(rest.iter().map(|x| *x as u8).collect::<Vec<u8>>()),
+            4 if fits(16) => w.extend(rest.iter().map(|x| *x as u16).take_while(|_| true)),
+            4 if fits(32) => w.extend(rest.iter().map(|x| *x as u32).skip_while(|_| false)),
+            5 => w.extend(rest.iter().map(|x| *x as usize).scan(0usize, |_, x| Some(x))),
+            _ => w.extend(rest.iter().cloned()),
+        }
         if how != 2 {
             w.close().unwrap();
         }
